@@ -236,6 +236,20 @@ func headerWrites(p *Prog, fn *ssa.Function) (buf ssa.Value, slots []codeSlot, p
 		if b, sl, pr := headerPuts(p, fn); b != nil {
 			return b, sl, pr
 		}
+		// or a byte slice grown by append(header, getbytes.FromX(v)...)
+		if L := recordLayout(fn); L.unknown == "" && len(L.slots) > 0 && L.host == fn && L.final != nil {
+			off := 0
+			for _, s := range L.slots {
+				if s.varlen {
+					L.problems = append(L.problems, "a variable-length part is appended to the header")
+					continue
+				}
+				prov, plain := provenance(s.val, fn.Params[0])
+				slots = append(slots, codeSlot{off, s.size, s.float, prov, plain, s.instr})
+				off += s.size
+			}
+			return L.final, slots, L.problems
+		}
 		return nil, nil, []string{"no write to a bytes.Buffer found"}
 	}
 	buf = methodArgs(&writes[0].Call)[0]
@@ -249,6 +263,37 @@ func headerWrites(p *Prog, fn *ssa.Function) (buf ssa.Value, slots []codeSlot, p
 		}
 		arg := wargs[1]
 		gb, ok := arg.(*ssa.Call)
+		if !ok && InLoop(w) {
+			// a table of views written in a loop: one write per element of a slice / array literal
+			if views, hdr := unrollArrayLoop(w, arg); views != nil {
+				okAll := true
+				for _, vv := range views {
+					g2, isCall := vv.(*ssa.Call)
+					if !isCall || g2.Call.StaticCallee() == nil || fnPkg(g2.Call.StaticCallee()) == nil || !strings.HasSuffix(fnPkg(g2.Call.StaticCallee()).Path(), "/getbytes") {
+						okAll = false
+					}
+				}
+				if okAll {
+					if prevAnchor != nil && !InstrDominates(prevAnchor, hdr) {
+						problems = append(problems, fmt.Sprintf("write #%d is not on every path after write #%d (layout depends on the path)", i+1, i))
+					}
+					prevAnchor = hdr
+					for _, vv := range views {
+						g2 := vv.(*ssa.Call)
+						pt := g2.Call.StaticCallee().Signature.Params().At(0).Type()
+						size := int(sizes.Sizeof(pt))
+						isFloat := false
+						if b, okb := pt.Underlying().(*types.Basic); okb && b.Info()&types.IsFloat != 0 {
+							isFloat = true
+						}
+						prov, plain := provenance(g2.Call.Args[0], fn.Params[0])
+						slots = append(slots, codeSlot{off, size, isFloat, prov, plain, w})
+						off += size
+					}
+					continue
+				}
+			}
+		}
 		if !ok || gb.Call.StaticCallee() == nil || fnPkg(gb.Call.StaticCallee()) == nil || !strings.HasSuffix(fnPkg(gb.Call.StaticCallee()).Path(), "/getbytes") {
 			problems = append(problems, fmt.Sprintf("write #%d does not take its bytes from a getbytes scalar view", i+1))
 			continue
@@ -305,6 +350,7 @@ func unrollArrayLoop(w *ssa.Call, v ssa.Value) ([]ssa.Value, ssa.Instruction) {
 	var arr *ssa.Alloc
 	var idx ssa.Value
 	var snapshot ssa.Instruction // the load of the whole array (range over an array value)
+	var sliceOf *ssa.Slice       // the slice literal built on the array
 	switch x := v.(type) {
 	case *ssa.Index:
 		if ld, ok := x.X.(*ssa.UnOp); ok && ld.Op == token.MUL {
@@ -316,6 +362,11 @@ func unrollArrayLoop(w *ssa.Call, v ssa.Value) ([]ssa.Value, ssa.Instruction) {
 		if ia, ok := x.X.(*ssa.IndexAddr); ok && x.Op == token.MUL {
 			arr, _ = ia.X.(*ssa.Alloc)
 			idx = ia.Index
+			// a slice literal: the whole of a fresh array, s := arr[:]
+			if sl, isSl := ia.X.(*ssa.Slice); isSl && sl.Low == nil && sl.High == nil {
+				arr, _ = sl.X.(*ssa.Alloc)
+				sliceOf = sl
+			}
 		}
 	}
 	if arr == nil || idx == nil {
@@ -341,7 +392,16 @@ func unrollArrayLoop(w *ssa.Call, v ssa.Value) ([]ssa.Value, ssa.Instruction) {
 		return nil, nil
 	}
 	if lim, isC := constInt(cmp.Y); !isC || lim != n {
-		return nil, nil
+		// len(slice literal) of the same array
+		okLen := false
+		if lc, isCall := cmp.Y.(*ssa.Call); isCall && sliceOf != nil {
+			if b, isB := lc.Call.Value.(*ssa.Builtin); isB && b.Name() == "len" && lc.Call.Args[0] == ssa.Value(sliceOf) {
+				okLen = true
+			}
+		}
+		if !okLen {
+			return nil, nil
+		}
 	}
 	// index runs 0,1,2,...: phi [0, idx+1] tested directly, or phi [-1, next] with next = phi+1 tested
 	startsAtZero := false
@@ -422,6 +482,26 @@ func unrollArrayLoop(w *ssa.Call, v ssa.Value) ([]ssa.Value, ssa.Instruction) {
 		case *ssa.UnOp:
 			if ssa.Instruction(x) != snapshot {
 				return nil, nil
+			}
+		case *ssa.Slice:
+			// the slice literal itself: used only to be ranged over (len, element reads by the loop index)
+			if x != sliceOf {
+				return nil, nil
+			}
+			for _, r2 := range *x.Referrers() {
+				switch y := r2.(type) {
+				case *ssa.IndexAddr:
+					if y.Index != idx {
+						return nil, nil
+					}
+				case *ssa.Call:
+					if b, isB := y.Call.Value.(*ssa.Builtin); !isB || b.Name() != "len" {
+						return nil, nil
+					}
+				case *ssa.DebugRef:
+				default:
+					return nil, nil
+				}
 			}
 		case *ssa.DebugRef:
 		default:
@@ -649,12 +729,39 @@ func runC14(p *Prog, r *Report) {
 }
 
 func c14Frames(p *Prog, r *Report, fn *ssa.Function, buf ssa.Value, name, payloadField, view string) {
-	// buffer: fresh allocation in this call
+	// a header grown in a byte slice made in this call (append form): fresh by construction; it
+	// must go nowhere but into the returned frame list
+	sliceMode := false
+	if buf != nil {
+		if st, isSl := buf.Type().Underlying().(*types.Slice); isSl && types.Identical(st.Elem(), types.Typ[types.Byte]) {
+			sliceMode = true
+		}
+	}
+	if sliceMode {
+		r.OK("C14.R3", name+": header buffer is allocated in this call", p.Pos(fn.Pos()), "make([]byte, 0, n) per message, grown by append")
+		bad := ""
+		for _, ref := range *buf.Referrers() {
+			switch x := ref.(type) {
+			case *ssa.Store:
+				if x.Val != buf {
+					bad = p.InstrPos(x)
+				}
+			case *ssa.DebugRef:
+			default:
+				if in, ok := ref.(ssa.Instruction); ok {
+					bad = p.InstrPos(in)
+				}
+			}
+		}
+		r.Check(bad == "", "C14.R3", name+": header buffer does not escape", p.Pos(fn.Pos()), "only placed in the returned frame list", "the header buffer is handed to other code at "+bad+" (it may be reused while its bytes are still referenced by a queued message)")
+	}
 	alloc, isAlloc := buf.(*ssa.Alloc)
+	if !sliceMode {
 	r.Check(isAlloc && alloc.Heap, "C14.R3", name+": header buffer is allocated in this call", p.Pos(fn.Pos()), "new(bytes.Buffer) per message",
 		"the header buffer is not a fresh allocation of this call (pooled / shared buffers are overwritten while the previous message is still queued)")
+	}
 	// and used for nothing but Write / Bytes
-	if buf != nil {
+	if buf != nil && !sliceMode {
 		bad := ""
 		for _, ref := range *buf.Referrers() {
 			in, ok := ref.(ssa.Instruction)
@@ -724,6 +831,10 @@ func c14Frames(p *Prog, r *Report, fn *ssa.Function, buf ssa.Value, name, payloa
 							why = "a frame is not produced by a byte-view call"
 							continue
 						}
+						if k == 0 && sliceMode && st.Val == buf {
+							okHdr = true
+							continue
+						}
 						if k == 0 && IsCallTo(call, "(*bytes.Buffer).Bytes") && call.Call.Args[0] == buf {
 							okHdr = true
 						}
@@ -758,7 +869,38 @@ func c14R4(p *Prog, r *Report) {
 	}
 	r.Fn(FuncName(ss))
 	okSend := false
+	// the publishing goroutine: a closure of startSocket or a named function / method it starts
+	var pubFns []*ssa.Function
+	seenPub := map[*ssa.Function]bool{}
 	for _, a := range Anons(ss) {
+		if !seenPub[a] {
+			seenPub[a] = true
+			pubFns = append(pubFns, a)
+		}
+	}
+	Instrs(ss, func(in ssa.Instruction) {
+		if g, ok := in.(*ssa.Go); ok {
+			for _, f := range ResolveOr(p, g) {
+				if isModuleFn(f) && !seenPub[f] {
+					seenPub[f] = true
+					pubFns = append(pubFns, f)
+					r.Fn(FuncName(f))
+				}
+			}
+		}
+	})
+	// the converter: a call through a function value of type func(*DataRecord) [][]byte
+	isConverterCall := func(call *ssa.Call) bool {
+		if call.Call.StaticCallee() != nil || call.Call.IsInvoke() {
+			return false
+		}
+		sig, ok := call.Call.Value.Type().Underlying().(*types.Signature)
+		if !ok || sig.Params().Len() != 1 || sig.Results().Len() != 1 {
+			return false
+		}
+		return typeName(sig.Params().At(0).Type()) == "DataRecord" && sig.Results().At(0).Type().String() == "[][]byte"
+	}
+	for _, a := range pubFns {
 		Instrs(a, func(in ssa.Instruction) {
 			cc := CallOf(in)
 			if cc == nil || !strings.HasSuffix(CalleeName(cc), ".SendMessage") {
@@ -773,6 +915,9 @@ func c14R4(p *Prog, r *Report) {
 				}
 				seen[v] = true
 				if call, ok := v.(*ssa.Call); ok && call.Call.StaticCallee() == nil && !call.Call.IsInvoke() {
+					if isConverterCall(call) {
+						return true
+					}
 					// dynamic call of the captured converter
 					if u, ok := call.Call.Value.(*ssa.UnOp); ok {
 						if fv, ok := u.X.(*ssa.FreeVar); ok && fv.Name() == "converter" {
@@ -973,6 +1118,14 @@ func c14R5(p *Prog, r *Report) {
 				var ln Poly
 				switch x := v.(type) {
 				case *ssa.Call:
+					// the view is made by a shared (generic) helper that is handed the same slice:
+					// the helper is checked in its own right
+					if h := x.Call.StaticCallee(); isModuleFn(h) && len(x.Call.Args) == 1 && x.Call.Args[0] == ssa.Value(prm) && !scalar && len(h.Params) == 1 {
+						if _, isSl := h.Params[0].Type().Underlying().(*types.Slice); isSl {
+							check(h, false)
+							ln = want
+						}
+					}
 					if b, isB := x.Call.Value.(*ssa.Builtin); isB && b.Name() == "Slice" {
 						ln = pc.Of(x.Call.Args[1])
 						// the memory viewed is the parameter's own
